@@ -266,3 +266,29 @@ Theorem C07_interrupt_retps_transparent_RI_block :
       /\ (forall a, RAMB <= a -> (a < S \/ S + 4 <= a) -> (a < P \/ P + 64 <= a) -> ramb m2 a = ramb m a).
 Proof. exact interrupt_retps_transparent_RI. Qed.
 Print Assumptions C07_interrupt_retps_transparent_RI_block.
+
+(* CALLPS into a control block with the R flag (kernel level, no I, empty block-move lists) whose code returns at
+   once with RETPS: the caller continues after the CALLPS with everything else as it was *)
+Theorem C07_callps_retps_transparent_R_block :
+  forall irc irr m,
+    iopcode irc = 12460 -> iopcode irr = 12488 -> is_kernel m = true ->
+    bus_wf (mbus m) ->
+    let N := R m 0 in
+    let P := R m R_PCBP in
+    let S := R m R_ISP in
+    pcb_in_ram N -> in_ram_w (N + 64) -> ldw m (N + 64) = 0 ->
+    pcb_in_ram P -> in_ram_w (P + 64) -> ldw m (P + 64) = 0 ->
+    in_ram_w S -> S + 4 < 4294967296 ->
+    (P + 68 <= N \/ N + 68 <= P) -> (S + 4 <= P \/ P + 68 <= S) -> (S + 4 <= N \/ N + 68 <= S) ->
+    let H := ldw m N in
+    0 <= H -> Z.testbit H 8 = true -> Z.testbit H 7 = false -> Z.testbit H 11 = false -> Z.testbit H 12 = false ->
+    Z.testbit (PSW m) 7 = false ->
+    (forall i, 0 <= i <= 15 -> 0 <= R m i < 4294967296) ->
+    exists m1 m2,
+      exec irc m = Ok 0 m1 /\ exec irr m1 = Ok 0 m2
+      /\ R m2 R_PC = add32 (R m R_PC) 2 /\ R m2 R_SP = R m R_SP /\ R m2 R_PCBP = P /\ R m2 R_ISP = S
+      /\ (forall i, 0 <= i <= 10 -> R m2 i = R m i)
+      /\ (forall k, In k [21; 20; 19; 18; 16; 15; 14; 13; 12; 11; 10; 9; 7] -> Z.testbit (PSW m2) k = Z.testbit (PSW m) k)
+      /\ (forall a, RAMB <= a -> (a < S \/ S + 4 <= a) -> (a < P \/ P + 64 <= a) -> ramb m2 a = ramb m a).
+Proof. exact callps_retps_transparent_R. Qed.
+Print Assumptions C07_callps_retps_transparent_R_block.
